@@ -20,6 +20,15 @@ VERIF = os.path.dirname(os.path.dirname(os.path.abspath(__file__)))
 SEEDED = os.path.join(VERIF, "seeded")
 
 
+def _wt_add(wt):
+    import time
+    for k in range(5):
+        if subprocess.call(["git", "-C", "/repo", "worktree", "add", "-q", "--detach", wt, "HEAD"], stdout=subprocess.DEVNULL, stderr=subprocess.DEVNULL) == 0:
+            return
+        time.sleep(1 + k)
+    raise RuntimeError("git worktree add failed for " + wt)
+
+
 def run_one(name):
     d = os.path.join(SEEDED, name)
     meta = json.load(open(os.path.join(d, "meta.json")))
@@ -32,7 +41,7 @@ def run_one(name):
     tdir = tempfile.mkdtemp(prefix="pgsa-regress-")
     wt = os.path.join(tdir, "repo")
     try:
-        subprocess.check_call(["git", "-C", "/repo", "worktree", "add", "-q", "--detach", wt, "HEAD"], stdout=subprocess.DEVNULL, stderr=subprocess.DEVNULL)
+        _wt_add(wt)
         r = subprocess.run(["git", "-C", wt, "apply", os.path.join(d, "patch.diff")], stdout=subprocess.PIPE, stderr=subprocess.STDOUT, text=True)
         if r.returncode != 0:
             return name, "N/A", "patch no longer applies to /repo HEAD: " + r.stdout[-200:], []
